@@ -1,6 +1,12 @@
 theories/Base/Sx.vo theories/Base/Sx.glob theories/Base/Sx.v.beautified theories/Base/Sx.required_vo: theories/Base/Sx.v 
 theories/Base/Sx.vio: theories/Base/Sx.v 
 theories/Base/Sx.vos theories/Base/Sx.vok theories/Base/Sx.required_vos: theories/Base/Sx.v 
+theories/Gen/C07Consts.vo theories/Gen/C07Consts.glob theories/Gen/C07Consts.v.beautified theories/Gen/C07Consts.required_vo: theories/Gen/C07Consts.v 
+theories/Gen/C07Consts.vio: theories/Gen/C07Consts.v 
+theories/Gen/C07Consts.vos theories/Gen/C07Consts.vok theories/Gen/C07Consts.required_vos: theories/Gen/C07Consts.v 
+theories/Gen/C07Consts_ok.vo theories/Gen/C07Consts_ok.glob theories/Gen/C07Consts_ok.v.beautified theories/Gen/C07Consts_ok.required_vo: theories/Gen/C07Consts_ok.v theories/Model/Lru.vo theories/Gen/C07Consts.vo
+theories/Gen/C07Consts_ok.vio: theories/Gen/C07Consts_ok.v theories/Model/Lru.vio theories/Gen/C07Consts.vio
+theories/Gen/C07Consts_ok.vos theories/Gen/C07Consts_ok.vok theories/Gen/C07Consts_ok.required_vos: theories/Gen/C07Consts_ok.v theories/Model/Lru.vos theories/Gen/C07Consts.vos
 theories/Model/Lru.vo theories/Model/Lru.glob theories/Model/Lru.v.beautified theories/Model/Lru.required_vo: theories/Model/Lru.v theories/Base/Sx.vo
 theories/Model/Lru.vio: theories/Model/Lru.v theories/Base/Sx.vio
 theories/Model/Lru.vos theories/Model/Lru.vok theories/Model/Lru.required_vos: theories/Model/Lru.v theories/Base/Sx.vos
